@@ -134,6 +134,8 @@ class PoolWorld(object):
         self.plan = [None] + [dict(c) for c in (more or [])]
         self.callno = 0
         self.base = 0
+        self.call_n = {0: n}      # base of a call -> number of its items
+        self.qbase = {}           # id(queue) -> base of the call that was current when the queue was made
         self.judged = []
         self.wobj = {}
         # items whose REGULAR result is None (a blank tile in TileCreator._create_bulk_meta_tile is such a result):
@@ -192,6 +194,7 @@ class PoolWorld(object):
         if self.body is not None and len(self.queues) >= 2:
             self.queues = []          # end-to-end mode: a new pool per call of the code under test
         self.queues.append(q)
+        self.qbase[id(q)] = self.base
         # a pool creates its queues in pairs, task queue first (in __init__; a tree that gives every call its own
         # queues creates another pair per call): the latest complete pair is the one of the current call
         return 'task' if len(self.queues) % 2 == 1 else 'result'
@@ -259,6 +262,7 @@ class PoolWorld(object):
         self.base += self.n
         self.callno += 1
         self.n, self.raise_mode, self.entry = c['n'], bool(c['raise_mode']), c['entry']
+        self.call_n[self.base] = self.n
         self.api = c.get('api') or APIS[c['entry']][0]
         self.fail = frozenset(self.fail | set(self.base + i for i in c['fail']))
         self.out = []
@@ -336,7 +340,14 @@ class PoolWorld(object):
             if isinstance(res, Val):
                 return res.i if (res.key == i and res.i not in self.fail) else -2
             if res is None:
-                return self.base + i if (self.base + i) in self.none else -2
+                # a None carries no identity: it belongs to a call that this queue has served (the one that was current
+                # when the queue was made, or a later one) and that has an item at this index whose regular result is None
+                # - a worker of the previous call may put its result after the next call has begun
+                since = self.qbase.get(id(self.rq), 0)
+                for b in sorted(self.call_n):
+                    if b >= since and i < self.call_n[b] and (b + i) in self.none:
+                        return b + i
+                return -2
             if isinstance(res, tuple) and len(res) == 3 and isinstance(res[1], ItemError):
                 return res[1].i if (res[1].key == i and res[1].i in self.fail) else -2
             return -2
